@@ -11,7 +11,8 @@ INFO = {
     'rule': ('A: histories (Hypothesis rule-based machine, <=40 steps) of requests over an application whose routes '
              'cover every outcome kind (200, endpoint 3xx, raised/returned 4xx/5xx, uncaught exception, non-breaking '
              'fall-through, unknown URL, wrong method) with StatsMiddleware and the stats application mounted, '
-             'interleaved with stats reads and resets; after every read/reset the JSON report must equal a model '
+             'interleaved with stats reads and resets - and with the requests, reads and resets of a second, independent '
+             'application (own StatsMiddleware) in the same process; after every read/reset the JSON report must equal a model '
              'Counter keyed by (pattern, status-or-exception-name). B: histories over the sample store with capacity '
              '1..64: add unique values, resize up/down, iterate, reseed; invariants after every step. Non-trivial = A: a '
              'non-200 outcome or requests after a reset; B: a resize after the store has overflowed. Distinct histories counted.'),
@@ -113,10 +114,22 @@ class StatsSim(object):
         self.model = Counter()
         self.after_reset = False
         self.nontrivial = False
+        self.other = None
 
     def step(self, op):
         ctx = self.ctx
         kind = op[0]
+        if kind == 'other':
+            # a second, independent application with a StatsMiddleware of its own, living in the same process: its requests,
+            # reads and resets are its own business (each application is compared with its own model)
+            if self.other is None:
+                self.other = StatsSim(ctx)
+            self.other.step(op[1])
+            self.nontrivial = True
+            return
+        if kind == 'construct':
+            make_app()          # yet another application is built (and dropped) while this one is in use
+            return
         if kind == 'req':
             _, path, method = op
             r = call(self.app, path, method)
@@ -205,6 +218,18 @@ def stats_machine():
         def request(self, path, method):
             self.do(['req', path, method])
 
+        @rule(path=st.sampled_from(paths), method=st.sampled_from(['GET', 'GET', 'POST']))
+        def other_request(self, path, method):
+            self.do(['other', ['req', path, method]])
+
+        @rule(what=st.sampled_from(['read', 'reset', 'reset']))
+        def other_read_or_reset(self, what):
+            self.do(['other', [what]])
+
+        @rule()
+        def construct_another(self):
+            self.do(['construct'])
+
         @rule()
         def read(self):
             self.do(['read'])
@@ -215,6 +240,8 @@ def stats_machine():
 
         def teardown(self):
             self.sim.step(['read'])
+            if self.sim.other is not None:
+                self.sim.other.step(['read'])
             if self.sim.nontrivial:
                 self.ctx.nt(['stats', list(self.steps)], sample=len(self.ctx.samples) < 2)
             for op in self.steps:
